@@ -294,8 +294,8 @@ PROP = Prop(
           "thorough). Non-trivial = at least one legitimate removal (cbf) / at least one eviction decision or expansion (ccf). Distinct by hash of (parameters, operations)."),
     workloads=[
         Workload("cbf", wl_cbf, quick=1200, thorough=80000),
-        Workload("ccf", wl_ccf, quick=250, thorough=6000),
-        Workload("ccf_refill", wl_ccf_refill, quick=150, thorough=4000),
+        Workload("ccf", wl_ccf, quick=250, thorough=3500),
+        Workload("ccf_refill", wl_ccf_refill, quick=150, thorough=2200),
     ],
     assumptions=["below saturation; removals never exceed the key's outstanding count",
                  "history independence compares the library with itself on another history (fresh filter fed the outstanding multiset); cell semantics are pinned by C06/C16",
